@@ -10,7 +10,12 @@ from core.wire import atom, line, parse_reply, Atom
 ID = "C17"
 LEAN_TARGETS = ["TornadoModel.C17.Props"]
 _P = "TornadoModel.C17."
-THEOREMS = [_P + "stub"]
+THEOREMS = [_P + n for n in [
+    "accept_iff", "serverHandshake_inv", "acceptConnection_inv", "accept_value_spec", "selected_subprotocol_offered",
+    "deflate_only_if_offered_and_enabled", "default_origin_only_same_host_port", "originOk_iff",
+    "clientHandshake_inv", "client_accepts_only_matching_key", "client_negotiates_only_offered",
+    "b64enc_length", "b64val_char", "accept_value_length",
+]]
 TRUSTED = [
     "SHA-1 is opaque (a parameter of the model; the harness passes the real digest)",
     "urllib.parse.urlsplit netloc extraction as modelled (`netloc`); `ipaddress`-based validation of a bracketed host is an opaque verdict passed by the harness",
@@ -28,7 +33,15 @@ RULE = ("product of present/absent/malformed Upgrade, Connection, Key, Version, 
         "select policies x extension offers x compression; client: crafted 101/other responses x offered lists x compression; "
         "non-trivial = server case reaching the origin check or later / client case with status 101")
 EXHAUSTIVE = {"quick": True, "thorough": True}
-CLAUSES = {}
+CLAUSES = {
+    "the server completes the handshake exactly when the request carries the required headers and the origin check passes": "accept_iff (+ serverHandshake_inv, acceptConnection_inv)",
+    "101 with the RFC 6455 Sec-WebSocket-Accept value": "accept_value_spec, accept_value_length, b64enc_length, b64val_char; Base64 decode(encode)=id: tie only (b64 stream; b64_roundtrip_goal)",
+    "the subprotocol the application selected": "selected_subprotocol_offered",
+    "a permessage-deflate response only if offered and enabled": "deflate_only_if_offered_and_enabled",
+    "the default origin check accepts only an Origin whose host and port equal the Host header": "default_origin_only_same_host_port (+ originOk_iff); netloc = urlparse().netloc: tie only (origin stream)",
+    "the client accepts a handshake response only if its accept value matches its key": "client_accepts_only_matching_key",
+    "and it negotiates nothing it did not offer": "client_negotiates_only_offered (after fix 58a3637 of D16)",
+}
 PARALLEL = True
 CASE_TIMEOUT = 60
 GUID = b"258EAFA5-E914-47DA-95CA-C5AB0DC85B11"
